@@ -37,7 +37,7 @@ Qed.
 
 (* ---------------------------------------------------------------- scalar fields *)
 
-Ltac inv_fields I := destruct I as [Icrash Ipause Ipause1 Irun Irerun Ievents Ineed Iindex Iresp Isend Iflight Iapps Iqueues].
+Ltac inv_fields I := destruct I as [Icrash Ipause Ipause1 Irun Irerun Ievents Ineed Iindex Iresp Isend Iflight Ireq Iapps Iqueues].
 
 Ltac rw_state :=
   repeat match goal with
@@ -57,7 +57,7 @@ Lemma step_pause s l s' : inv s -> step cfg_fixed s l = Some s' ->
   ewait s' + (if ebool epc_preclear (eng s') then 1 else 0) = (if erunning s' then 1 else 0) /\
   (rerun s' = true -> erunning s' = true).
 Proof.
-  intros I H. inv_fields I. clear Iapps Iqueues Iflight Iresp Isend Iindex Ievents Ineed.
+  intros I H. inv_fields I. clear Iapps Iqueues Iflight Ireq Iresp Isend Iindex Ievents Ineed.
   step_inv H; simpl in *; unfold eq_or_end; rw_state; simpl in *.
   all: repeat match goal with |- context [if ?b then _ else _] => destruct b eqn:?; simpl in * end.
   all: try (destruct (ra s); simpl in *; repeat split; auto; try lia; try discriminate; fail).
@@ -67,10 +67,25 @@ Proof.
   all: try (destruct (rerun s); simpl in *; try discriminate; auto; lia).
 Qed.
 
+(** a response in the port is matched to the queue that issued the request *)
+Lemma resp_matched s : inv s -> forall q r, resp s = q :: r -> match_response s q = Some q.
+Proof.
+  intros I q r Hr. destruct (i_flight s I) as (_ & Hf). destruct (Hf q) as (qq & E & R & C).
+  { unfold flight. rewrite Hr. apply in_or_app. right. apply in_or_app. right. left. reflexivity. }
+  eapply match_response_ok; eauto.
+Qed.
+
+Ltac norm_resp MR :=
+  repeat match goal with
+         | Hr : resp _ = ?n :: _, Hm : match_response _ ?n = _ |- _ =>
+           first [rewrite (MR _ _ eq_refl) in Hm | rewrite (MR _ _ Hr) in Hm];
+           first [discriminate Hm | injection Hm as <-]
+         end.
+
 Lemma step_crash s l s' : inv s -> step cfg_fixed s l = Some s' -> crashed s' = false.
 Proof.
-  intros I H. inv_fields I. unfold flight in Iflight.
-  step_inv H; simpl in *; auto; exfalso.
+  intros I H. pose proof (resp_matched s I) as MR. inv_fields I. unfold flight in Iflight.
+  step_inv H; simpl in *; auto; exfalso; norm_resp MR.
   - (* Unsubscribe *)
     match goal with Ha : nth_error (apps s) _ = Some _ |- _ => destruct (Iapps _ _ Ha) as (_ & Hpc & _) end.
     match goal with Hp : a_pc _ = _ |- _ => rewrite Hp in Hpc end.
@@ -451,8 +466,10 @@ Qed.
 
 Lemma step_flight s l s' : inv s -> step cfg_fixed s l = Some s' -> flight_ok s'.
 Proof.
-  intros I H. destruct (i_flight s I) as (ND & FL). clear I. unfold flight_ok, flight in *.
+  intros I H. pose proof (resp_matched s I) as MR. destruct (i_flight s I) as (ND & FL). clear I.
+  unfold flight_ok, flight in *.
   step_inv H; simpl in *; auto.
+  all: norm_resp MR.
   all: try (split; [exact ND|]; eapply flight_upd; eauto; intros x Hx R C; simpl; unfold q_append; simpl; split; auto;
             intro X; apply app_eq_nil in X; destruct X; discriminate).
   all: repeat match goal with H : resp _ = _ |- _ => rewrite H in *; clear H end.
@@ -492,8 +509,10 @@ Proof.
   intros I H q qq' Hq R.
   assert (IQ : forall q qq, nth_error (queues s) q = Some qq -> q_running qq = true -> In q (flight s))
     by (intros q1 qq1 E1; apply (i_queues s I q1 qq1 E1)).
+  pose proof (resp_matched s I) as MR.
   clear I. unfold flight in *.
   step_inv H; simpl in *; eauto.
+  all: norm_resp MR.
   all: repeat match goal with H : resp _ = _ |- _ => rewrite H in *; clear H end.
   all: repeat match goal with H : tosend _ = _ |- _ => rewrite H in *; clear H end.
   all: try (apply nth_error_upd_inv in Hq; destruct Hq as (x & Hq & ->);
@@ -584,6 +603,36 @@ Proof.
   all: try (exfalso; match goal with H : nth_error _ _ = None |- _ => apply nth_error_None in H end; lia).
 Qed.
 
+(* ---------------------------------------------------------------- request IDs *)
+
+Lemma step_req s l s' : inv s -> step cfg_fixed s l = Some s' ->
+  (forall i qi, nth_error (queues s') i = Some qi -> q_running qi = true -> (q_req qi < next_req s')%N) /\
+  (forall i j qi qj, nth_error (queues s') i = Some qi -> nth_error (queues s') j = Some qj ->
+                     q_running qi = true -> q_running qj = true -> q_req qi = q_req qj -> i = j).
+Proof.
+  intros I H. destruct (i_req s I) as (LT & UQ). clear I.
+  step_inv H; simpl in *; try (split; assumption).
+  all: split; [intros i0 qi Hi Ri | intros i0 j0 qi qj Hi Hj Ri Rj Q].
+  all: repeat match goal with
+              | Hx : nth_error (upd _ _ _) _ = Some _ |- _ =>
+                apply nth_error_upd_inv in Hx; let x := fresh "x" in destruct Hx as (x & Hx & ->)
+              end.
+  all: repeat match goal with
+              | Hx : context [if Nat.eqb ?a ?b then _ else _] |- _ => destruct (Nat.eqb a b) eqn:?; simpl in Hx
+              | |- context [if Nat.eqb ?a ?b then _ else _] => destruct (Nat.eqb a b) eqn:?; simpl
+              end.
+  all: simpl in *; try discriminate.
+  all: repeat match goal with Hx : (_ =? _) = true |- _ => apply Nat.eqb_eq in Hx end; subst.
+  all: try (eapply LT; eauto; fail).
+  all: try (eapply UQ; eauto; fail).
+  all: try reflexivity.
+  all: try (apply N.lt_lt_succ_r; eapply LT; eauto; fail).
+  all: try (apply N.lt_succ_diag_r).
+  all: try (exfalso; match goal with Hx : nth_error (queues _) _ = Some ?x, Rx : q_running ?x = true |- _ =>
+                       pose proof (LT _ _ Hx Rx) as L1; simpl in Q; rewrite ?Q in L1; rewrite <- ?Q in L1;
+                       apply N.lt_irrefl in L1; exact L1 end).
+Qed.
+
 (* ---------------------------------------------------------------- the invariant is inductive *)
 
 Theorem step_preserves_inv s l s' : inv s -> step cfg_fixed s l = Some s' -> inv s'.
@@ -598,6 +647,7 @@ Proof.
   - eapply step_resp; eauto.
   - eapply step_send; eauto.
   - exact (step_flight _ _ _ I H).
+  - exact (step_req _ _ _ I H).
   - eapply step_apps; eauto.
   - intros q qq Hq. split.
     + exact (step_work _ _ _ I H q qq Hq).
@@ -611,17 +661,27 @@ Proof.
   - destruct (last p (ODrain 0)); [discriminate|exact I].
 Qed.
 
-Theorem init_inv nq ps : progs_ok nq ps = true -> inv (init nq ps).
+Theorem init_ctx_inv cs ps : progs_ok (length cs) ps = true -> inv (init_ctx cs ps).
 Proof.
   intros Hp. constructor; simpl; auto; try discriminate.
   - split; [constructor|]. intros q [].
+  - split.
+    + intros i qi Hi R. apply nth_error_In, in_map_iff in Hi. destruct Hi as (c & <- & _). discriminate.
+    + intros i j qi qj Hi _ R. apply nth_error_In, in_map_iff in Hi. destruct Hi as (c & <- & _). discriminate.
   - intros t a Ha. rewrite nth_error_map in Ha. destruct (nth_error ps t) as [p|] eqn:E; [|discriminate].
-    injection Ha as <-. unfold app_inv; simpl. rewrite repeat_length.
-    assert (O : ops_ok nq p).
+    injection Ha as <-. unfold app_inv; simpl. rewrite map_length.
+    assert (O : ops_ok (length cs) p).
     { apply prog_ok_ops. unfold progs_ok in Hp. rewrite forallb_forall in Hp. apply Hp. eapply nth_error_In; eauto. }
     split; [exact O|]. repeat split; auto; discriminate.
-  - intros q qq Hq. apply nth_error_In, repeat_spec in Hq. subst qq. split; simpl; [intros C; contradiction|discriminate].
+  - intros q qq Hq. apply nth_error_In, in_map_iff in Hq. destruct Hq as (c & <- & _).
+    split; simpl; [intros C; contradiction|discriminate].
 Qed.
+
+Lemma default_ctxs_length nq : length (default_ctxs nq) = nq.
+Proof. unfold default_ctxs. rewrite map_length, seq_length. reflexivity. Qed.
+
+Theorem init_inv nq ps : progs_ok nq ps = true -> inv (init nq ps).
+Proof. intros Hp. apply init_ctx_inv. rewrite default_ctxs_length. exact Hp. Qed.
 
 Theorem run_inv l : forall s s', inv s -> run cfg_fixed s l = Some s' -> inv s'.
 Proof.
